@@ -9,6 +9,7 @@ A correspondence / corpus *case* is a whole history: a list of protocol lines (s
 """
 import os
 
+from ..extract import findshape as _ex
 from ..lib import core
 from ..lib.core import Failure, Disagreement
 
@@ -27,6 +28,15 @@ THEOREMS = [
     "Nix.C13.referring_sources_inverse",
     "Nix.C13.source_referring_inverse",
     "Nix.C13.referring_once",
+    # the same about the shape of the code as harness/extract/findshape.py reads it (Generated/FindShape.lean)
+    "Nix.C13.find_methods",
+    "Nix.C13.find_code",
+    "Nix.C13.find_related_code",
+    "Nix.C13.parent_code",
+    "Nix.C13.parent_source_code",
+    "Nix.C13.referring_code",
+    "Nix.C13.referring_objects_code",
+    "Nix.C13.source_referring_code",
 ]
 ASSUMPTIONS = [
     "entities are identified by a key (creation counter) standing for the uuid; uuid4 freshness is assumed",
@@ -36,8 +46,16 @@ ASSUMPTIONS = [
     "no copy operations in the histories (same-id copies belong to C20/C04); handles of deleted entities are not queried",
     "children of a container iterate in HDF5 creation order (the oracle reads the creation-order index directly)",
 ]
-TRUSTED_EXTRA = ["hand-written model lean/NixModel/Pure/Tree.lean tied to util/find.py, section.py, source.py by "
-                 "differential histories (no generated tables for C13)"]
+TRUSTED_EXTRA = ["harness/extract/findshape.py renders the shape of util/find.py (_find_sections/_find_sources), the four "
+                 "find_* wrappers, Section.find_related / parent, Source.parent_source / _find_parent_recursive / "
+                 "parent_block and every referring_* property as constants (Generated/FindShape.lean); everything it "
+                 "does not parameterise is matched literally (ExtractError otherwise)",
+                 "lean/NixModel/Pure/TreeShape.lean (interpreter of those constants, run by the driver) and the "
+                 "hand-written forest model lean/NixModel/Pure/Tree.lean, tied to the code by differential histories"]
+
+
+def extract(repo):
+    return _ex.extract(repo)
 
 HKINDS = ["group", "data_array", "tag", "multi_tag"]
 HCONT = {"group": "groups", "data_array": "data_arrays", "tag": "tags", "multi_tag": "multi_tags"}
@@ -45,7 +63,7 @@ NAMES = ["a", "b", "c", "x"]
 WIDE_NAMES = NAMES + ["d", "e", "f", "g", "h", "i", "j", "k"]   # some histories: wide trees
 TYPES = ["t1", "t2"]
 POSNAME = "__pos__"
-QUERY_OPS = ("find", "parent", "parent_source", "parent_block", "referring")
+QUERY_OPS = ("find", "find_related", "parent", "parent_source", "parent_block", "referring")
 
 
 def _errname(e):
